@@ -30,6 +30,12 @@
 //!       c client-routes update, t topology update, u/v up hint for address 1/2, d/e down hint, k the consumer takes
 //!       | <kind>:<metadata version>:<peers version>:<routes 0|1>:<partial routes>:<responses>:<hints>,... <statuses>
 //!       one view of the slot per operation, then per response channel 0 pending / 1 answered / 2 dropped / 3 error
+//!   F p<script> / F r<full><routes><topology>   the metadata worker's fetch scheduling (hook verif_fetch_plan):
+//!       p: the REAL FetchPlan bookkeeping on a script over f (note_full_needed), t (note_topology), c (note_client_routes
+//!          with a fresh pair): view after every operation  <F|P>:<routes ids>:<topology 0|1>
+//!       r: one REAL poll of a PendingFetches whose slots hold scripted futures; each of the three digits is
+//!          0 absent, 1 in flight and not complete, 2 complete (full != 0 builds the Full variant):
+//!          <outcome 0 pending 1 Full 2 ClientRoutes 3 Topology> <still in flight: full routes topology as 0|1>
 //!   S <serial> <n> <mode>   multi-thread stress: a producer thread merges the tags 0..n-1 and drops
 //!       the sender; the consumer (tokio current-thread runtime on another OS thread) receives until
 //!       None.  mode 0 plain loop, 1 the recv future is cancelled and restarted all the time
@@ -50,6 +56,7 @@
 //!       (a scenario with an unexpected outcome is repeated once; set-up failures are reported as skip-env)
 use scylla::client::session_builder::SessionBuilder;
 use scylla::cluster::metadata::verif_merge_channel_b as hook;
+use scylla::cluster::metadata::verif_fetch_plan as fhook;
 use scylla::cluster::metadata::verif_metadata_update as uhook;
 use vh::mocknode as mock;
 use std::future::Future;
@@ -291,6 +298,43 @@ fn run_update_script(script: &str) -> String {
         .collect();
     let st: String = if status.is_empty() { "-".into() } else { status.iter().map(|x| char::from(b'0' + *x)).collect() };
     format!("{} {}", if vs.is_empty() { "-".to_string() } else { vs.join(",") }, st)
+}
+
+fn run_fetch_case(arg: &str) -> String {
+    if let Some(script) = arg.strip_prefix('p') {
+        let mut ops = Vec::new();
+        for (i, c) in script.chars().enumerate() {
+            ops.push(match c {
+                'f' => fhook::PlanOp::Full,
+                't' => fhook::PlanOp::Topology,
+                'c' => fhook::PlanOp::Routes(i as u64 + 1),
+                _ => return "error unknown-op".into(),
+            });
+        }
+        let views = fhook::run_plan(&ops);
+        let toks: Vec<String> = views
+            .iter()
+            .map(|(full, ids, topo)| {
+                let l = if ids.is_empty() { "-".to_string() } else { ids.iter().map(|x| format!("{:x}", x)).collect::<Vec<_>>().join(".") };
+                format!("{}:{}:{}", if *full { 'F' } else { 'P' }, l, *topo as u8)
+            })
+            .collect();
+        if toks.is_empty() { "-".into() } else { toks.join(",") }
+    } else if let Some(d) = arg.strip_prefix('r') {
+        let d: Vec<char> = d.chars().collect();
+        if d.len() != 3 {
+            return "error bad-digits".into();
+        }
+        let slot = |c: char| match c {
+            '0' => None,
+            '1' => Some(false),
+            _ => Some(true),
+        };
+        let (o, f, r, t) = fhook::poll_pending(slot(d[0]), slot(d[1]), slot(d[2]));
+        format!("{} {}{}{}", o, f as u8, r as u8, t as u8)
+    } else {
+        "error unknown-case".into()
+    }
 }
 
 /// run-length encoding of one received batch
@@ -608,6 +652,7 @@ fn run_case(case: &str) -> String {
         "X" | "Q" if f.len() == 2 => run_script(f[1], false),
         "Y" if f.len() == 2 => run_script(f[1], true),
         "U" if f.len() == 2 => run_update_script(f[1]),
+        "F" if f.len() == 2 => run_fetch_case(f[1]),
         "S" if f.len() == 4 => {
             let h = |s: &str| u64::from_str_radix(s, 16).unwrap();
             let (serial, n, mode) = (h(f[1]), h(f[2]), h(f[3]));
@@ -807,6 +852,33 @@ fn main() {
             }
             if k == usize::MAX {
                 break;
+            }
+        }
+    }
+    // the fetch plan: every script over {f, t, c} up to length 8 (10), and all 27 slot configurations of a poll
+    {
+        let max = if thorough { 10 } else { 8 };
+        let mut stack: Vec<String> = vec![String::new()];
+        while let Some(sc) = stack.pop() {
+            if sc.len() == max {
+                let c = format!("F p{}", sc);
+                let o = run_case(&c);
+                out.case(&c, &o);
+                continue;
+            }
+            for ch in ['f', 't', 'c'] {
+                let mut n = sc.clone();
+                n.push(ch);
+                stack.push(n);
+            }
+        }
+        for a0 in 0..3 {
+            for a1 in 0..3 {
+                for a2 in 0..3 {
+                    let c = format!("F r{}{}{}", a0, a1, a2);
+                    let o = run_case(&c);
+                    out.case(&c, &o);
+                }
             }
         }
     }
